@@ -157,12 +157,55 @@ def cases(draw, tier='quick'):
             trs.append(dict(id=tid, nl=draw(st.sampled_from(layers_pool)),
                             hunit=draw(st.sampled_from(HUNITS))))
         cats.append(dict(name=cn, offset=off, tracers=trs))
+    # a category with a non-zero offset may lack the offset row of one of
+    # its tracers while the bare-numbered row exists (adjoint-style output):
+    # bpch1 documents the fallback - name of the bare-numbered tracer, scale
+    # 1, unit of the block header.  The bare number is the tracer of an
+    # offset-0 category where possible (its own row must stay untouched).
+    forbidden = set()
+    if draw(st.sampled_from([False, False, False, True])):
+        nz = [c for c in cats if c['offset'] != 0]
+        if not nz and len(cats) >= 2:
+            cats[-1]['offset'] = draw(st.sampled_from([1000, 2000, 12000]))
+            for tr in cats[-1]['tracers']:
+                if tr['id'] + cats[-1]['offset'] not in usedfull:
+                    row = dict(tracer=tr['id'] + cats[-1]['offset'],
+                               name=names.pop(), fullname='moved',
+                               molwt=1.0, carbon=1,
+                               scale=draw(st.sampled_from(SCALES)),
+                               unit=draw(st.sampled_from(UNITS)))
+                    usedfull[row['tracer']] = row
+                    table.append(row)
+            nz = [cats[-1]]
+        if nz:
+            c = nz[-1]
+            zero = [z for z in cats if z['offset'] == 0]
+            cand = [tr['id'] for z in zero for tr in z['tracers']
+                    if tr['id'] + c['offset'] not in usedfull and
+                    all(t2['id'] != tr['id'] for t2 in c['tracers'])]
+            if cand:
+                tid = draw(st.sampled_from(cand))
+            else:
+                tid = 1
+                while tid in usedfull or tid + c['offset'] in usedfull or \
+                        any(t2['id'] == tid for t2 in c['tracers']):
+                    tid += 1
+                row = dict(tracer=tid, name=names.pop(), fullname='bare row',
+                           molwt=1.0, carbon=2,
+                           scale=draw(st.sampled_from(SCALES)),
+                           unit=draw(st.sampled_from(UNITS)))
+                usedfull[tid] = row
+                table.append(row)
+            forbidden.add(tid + c['offset'])
+            c['tracers'].append(dict(
+                id=tid, nl=draw(st.sampled_from(layers_pool)),
+                hunit=draw(st.sampled_from(HUNITS)), norow=True))
     # decoy rows (other ids) and decoy categories
     tiny = draw(st.sampled_from([False] * 11 + [True]))
     ndec = draw(st.sampled_from([0, 1, 2, 3] if tiny else [1, 2, 3]))
     for k in range(ndec):
         full = draw(st.integers(1, 99999))
-        while full in usedfull:
+        while full in usedfull or full in forbidden:
             full += 1
         row = dict(tracer=full, name=names.pop(), fullname='decoy',
                    molwt=1.0, carbon=1, scale=draw(st.sampled_from(SCALES)),
@@ -334,6 +377,19 @@ def table_row(spec, full):
     return None
 
 
+def eff_row(spec, c, tr):
+    """the table row that applies to a block: offset + tracer number, or -
+    when that row is missing - the documented fallback of bpch1: the
+    bare-numbered tracer's name, scale 1, the unit of the block header"""
+    row = table_row(spec, tr['id'] + c['offset'])
+    if row is not None:
+        return row
+    bare = table_row(spec, tr['id'])
+    return dict(bare, scale=1.0, unit=tr['hunit'], scale_text=None,
+                tracer=tr['id'] + c['offset'], fallback=True,
+                bare_scale=bare['scale'])
+
+
 def variables_of(spec):
     """ordered list of dict(key, cat, id, nl, row, raw[nt,nl,nj,ni] >f4)"""
     out = []
@@ -342,7 +398,7 @@ def variables_of(spec):
     k = 0
     for c in spec['cats']:
         for tr in c['tracers']:
-            row = table_row(spec, tr['id'] + c['offset'])
+            row = eff_row(spec, c, tr)
             arrs = []
             for t in range(nt):
                 raw = binascii.unhexlify(spec['data'][t * per + k])
